@@ -116,6 +116,24 @@ def nodeStep (st : NodeSt) (toks : List String) : NodeSt × String :=
     | some (m, now) =>
       let r := processMessageTop st m now payloadOfMsg
       (st, rOutcome r.out ++ " sent=(" ++ joinWith ";" (r.sent.map rSent) ++ ") " ++ rNodeSt r.st)
+  | "reinit" :: rest =>
+    -- `reinit <dkgId> <now> <np> {name key}* {|| <patch> <msg tokens…>}*`
+    let chunks := splitOn2 rest
+    match chunks with
+    | (id :: now :: np :: ps) :: inner =>
+      match parseStr id, parseTime now, np.toNat? with
+      | some id, some now, some np =>
+        let parts : Option (List (String × Bytes)) := (pairsOf np ps)
+        let msgs : Option (List InnerMsg) := inner.mapM (fun c => match c with
+          | patch :: mt => (parseNMsg mt).map (fun (m, _) => ({ msg := m, patch := patch == "1" } : InnerMsg))
+          | [] => none)
+        match parts, msgs with
+        | some parts, some msgs =>
+          let r := reinitDKG st { dkgId := id, participants := parts, inner := msgs } now payloadOfMsg
+          (r.st, rOutcome r.out ++ " " ++ rNodeSt r.st)
+        | _, _ => (st, "bad-op")
+      | _, _, _ => (st, "bad-op")
+    | _ => (st, "bad-op")
   | ["reput", idx] =>
     match idx.toNat?.bind (fun k => (sortOps st.deleted)[k]?) with
     | none => (st, "bad-op")
@@ -142,6 +160,16 @@ def nodeStep (st : NodeSt) (toks : List String) : NodeSt × String :=
     (r.st, rOutcome r.out ++ " posted=(" ++ posted ++ ") " ++ rNodeSt r.st)
   | _ => (st, "bad-op")
 where
+  splitOn2 (toks : List String) : List (List String) :=
+    toks.foldr (fun t acc => if t == "||" then [] :: acc else match acc with
+      | [] => [[t]]
+      | h :: r => (t :: h) :: r) [[]]
+  pairsOf : Nat → List String → Option (List (String × Bytes))
+    | 0, _ => some []
+    | k + 1, n :: key :: rest => do
+      let more ← pairsOf k rest
+      pure ((← parseStr n, ← parseBytes key) :: more)
+    | _, _ => none
   rOutMsg (m : OutMsg) : String := joinWith ":" [hs m.event, hs m.round, hs m.recipient, hs m.sender, hx m.data, if m.signedBySelf then "signed" else "unsigned"]
   parseOutMsgs : Nat → List String → Option (List OutMsg × List String)
     | 0, l => some ([], l)
